@@ -251,7 +251,10 @@ fn main() {
         "search" => {
             let seed: u64 = args.get(3).and_then(|s| s.parse().ok()).unwrap_or(1);
             let mut rng = Rng(seed.wrapping_mul(0x9E3779B97F4A7C15) | 1);
-            let w = if unit.starts_with("MontConfig::") {
+            let w = if unit.starts_with("derive::") {
+                // obligations on derive-macro output: the derived toy fields run the generator of the tree under test
+                bounded::first_fail("field", seed).map(|f| format!("derived toy field: {f}"))
+            } else if unit.starts_with("MontConfig::") {
                 for_all_cfgs!(search_cfg, unit, &mut rng)
             } else if unit.starts_with("c09_") || unit.starts_with("c18_") || unit.starts_with("Fp::") || unit.starts_with("Vec::") {
                 serde_units::search(unit)
